@@ -21,11 +21,11 @@ func init() {
 		battery := []string{"t.a:1|ms", "t.a:2|ms|#tag:v", "t.a:1|c", "t.a:5|g", "t.b:1|h", "t.b:3|d|@0.5", "u.x:1|ms", "u.x:1|c", "t.a:0.5:1.5|ms", "t.a:-1|ms", "t.a:nan|ms"}
 		{ // corpus: max_age so small that MaxAge/AgeBuckets is 0 -> client_golang's summary spins forever on the first Observe
 			h := &pipeHist{flags: "1111"}
-			h.load(&rawCfg{maxAge: 4, rules: []rawRule{{match: "t.*", name: "m"}}})
+			h.load(&rawCfg{maxAge: 4, rules: []rawRule{{match: "t.*", name: "m_$1"}}})
 			h.line("t.a:1|c")
 			h.scrape()
-			h.line("t.a:1|ms")
-			h.line("t.b:1|c")
+			h.line("t.b:1|ms")
+			h.line("t.c:1|c")
 			h.scrape()
 			emit(h.op(), true, "corpus_hang")
 		}
